@@ -87,6 +87,8 @@ func c16HistWorker(args []string) int {
 		c16PoolInProcess(ctx)
 	case "mixed":
 		c16MixedInProcess(ctx)
+	case "asyncown":
+		c16AsyncOwnInProcess(ctx)
 	default:
 		return 2
 	}
